@@ -227,10 +227,10 @@ def write (k : Key) (p : PropD) : List (Key × PropD) → List (Key × PropD)
   | [] => [(k, p)]
   | (k', p') :: r => if k' = k then (k, p) :: r else (k', p') :: write k p r
 
-/-- deleteProperty (object.go:133) -/
+/-- deleteProperty (object.go:133): the map entry goes, and every occurrence in propertyOrder -/
 def erase (k : Key) : List (Key × PropD) → List (Key × PropD)
   | [] => []
-  | (k', p') :: r => if k' = k then r else (k', p') :: erase k r
+  | (k', p') :: r => if k' = k then erase k r else (k', p') :: erase k r
 
 def protoLookup (k : Key) (o : Obj) : Option Val :=
   match k with
